@@ -161,10 +161,12 @@ def realise(lay, pattern):
         cm = {c["name"]: c for c in comps}
         mux["via_rail"] = [bool(cm[p]["rail"]) and rng.random() < 0.6 for p in in_names]
     comps.append(mux)
-    comps.append(_c("ML1", "ILoad", {"ii": G.sig(rng.uniform(0.01, 0.5))}, ["MUX"]))
-    if rng.random() < 0.6:
-        comps.append(_c("MC", "Converter", {"vo": 1.8, "eff": 0.85}, ["MUX"]))
-        comps.append(_c("ML2", "PLoad", {"pwr": G.sig(rng.uniform(0.01, 0.3))}, ["MC"]))
+    ii_, more_, pw_ = G.sig(rng.uniform(0.01, 0.5)), rng.random() < 0.6, G.sig(rng.uniform(0.01, 0.3))
+    if not lay.get("leaf_mux"):
+        comps.append(_c("ML1", "ILoad", {"ii": ii_}, ["MUX"]))
+        if more_:
+            comps.append(_c("MC", "Converter", {"vo": 1.8, "eff": 0.85}, ["MUX"]))
+            comps.append(_c("ML2", "PLoad", {"pwr": pw_}, ["MC"]))
     for i, e in enumerate(lay["extra"]):
         if e:
             comps.append(_c("X%d" % i, "RLoad", {"rs": G.sig(rng.uniform(50, 500))}, [in_names[i]]))
@@ -173,12 +175,16 @@ def realise(lay, pattern):
     return {"name": "mux", "comps": comps, "phases": phases, "_meta": {"pattern": list(pattern), "how": how}}
 
 
-_state = {"queue": []}
+_state = {"queue": [], "layouts": 0}
 
 
 def gen(rng, i, tier):
     if not _state["queue"]:
         lay = layout(rng)
+        _state["layouts"] += 1
+        # every sixth layout: NOTHING is connected to the mux output (a mux that is a leaf still selects its input,
+        # draws its ground current from it and names it as parent / rail-in)
+        lay["leaf_mux"] = _state["layouts"] % 6 == 5
         pats = [list(p) for p in itertools.product([1, 0], repeat=lay["k"])]
         for pat in pats:
             case = {"layout": lay, "pattern": pat}
